@@ -130,8 +130,8 @@ class Function:
     def entry(self): return self.order[0]
 
 class Global:
-    def __init__(self, name, ty, init, const):
-        self.name = name; self.ty = ty; self.init = init; self.const = const
+    def __init__(self, name, ty, init, const, tls=False):
+        self.name = name; self.ty = ty; self.init = init; self.const = const; self.tls = tls
 
 class Module:
     def __init__(self):
@@ -630,9 +630,10 @@ def _parse_global(s, mod):
     toks, _ = _strip_trailing_meta(lex(s))
     p = P(toks, mod)
     name = _unq(p.next()[1]); p.expect("=")
-    const = False
+    const = False; tls = False
     while p.peek()[0] == "word" and (p.peek()[1] in _LINKAGE or p.peek()[1] in ("constant", "global")):
         w = p.next()[1]
+        if w == "thread_local": tls = True
         if w == "thread_local" and p.peek()[1] == "(":
             p._skip_balanced("(", ")")
         if w == "constant": const = True
@@ -643,7 +644,7 @@ def _parse_global(s, mod):
     init = None
     if not p.eof() and p.peek()[1] != "," :
         init = p.value(ty)
-    mod.globals[name] = Global(name, ty, init, const)
+    mod.globals[name] = Global(name, ty, init, const, tls)
 
 
 def load(path):
